@@ -764,6 +764,8 @@ pub fn code_block(input: ParseString) -> ParseResult<SectionElement> {
   let code_token = Token::new(TokenKind::CodeBlock, src_range, block_src.clone());
 
   let code_id = code_id.iter().flat_map(|tkn| tkn.chars.clone().into_iter().collect::<Vec<char>>()).collect::<String>();
+  // `text` contains space and tab: the blanks between the identifier and the end of the opening line are not part of it
+  let code_id = code_id.trim_end_matches(|c: char| c == ' ' || c == '\t').to_string();
   match code_id.as_str() {
     "ebnf" => {
       let ebnf_text = block_src.iter().collect::<String>();
